@@ -23,7 +23,7 @@ def gen(rng, k, dll=None, big=False, presend=False):
             # 8|9, 12|13, 16|17, 20|21, 24|25, 32|33, 48|49, 64) and the extremes
             size = 60 * rng.randint(1, 4) + FD_LAST[(k // 4) % len(FD_LAST)]
     else:
-        size = rng.choice([9, 13, 14, 15, 21, 22, rng.randint(9, 250)]) if not big else rng.choice([1784, 1785, rng.randint(250, 1785)])
+        size = rng.choice([9, 13, 14, 15, 21, 22, rng.randint(9, 250)]) if not big else rng.choice([1784, 1785, 1785, 1779, rng.randint(250, 1785)])
     if k % 50 == 10 and not forced:
         # the FD size field has three bytes: a message of 65536 bytes or more, the stack receiving it
         dll, fd, unit = 'j1939-22', True, 60
@@ -40,7 +40,7 @@ def gen(rng, k, dll=None, big=False, presend=False):
     if directed_grant:
         max_cmdt = rng.choice([2, 3, 4, 5])
     cmdt_iv = rng.choice([None, None, None, 0.001, 0.005, 0.02, 0.05])
-    bam_iv = rng.choice([None, None, 0.01, 0.05, 0.1, 0.19])
+    bam_iv = rng.choice([None, None, 0.01, 0.05, 0.1, 0.19, rng.randint(10, 190) / 1000, rng.choice([43, 51, 59, 71, 86, 102, 113, 139]) / 1000])   # any whole number of milliseconds
     pf = rng.choice([x for x in range(0, 240) if x not in (0xEA, 0xEB, 0xEC, 0xEE, 0x4D, 0x4E, 0x25)])
     if bam and rng.random() < 0.5:
         pf = rng.randint(240, 255)
